@@ -219,11 +219,60 @@ Definition cover_wf (found : bool) (tsteps asteps : list N) (tmp_kind : N) (prog
   found && list_eqb N.eqb tsteps expected_tool_steps && list_eqb N.eqb asteps expected_auto_steps
   && (tmp_kind =? expected_tmp_kind) && list_eqb op_eqb prog expected_write_prog.
 
+(* ---------- the store side: stored copies that are no longer what create wrote ----------
+   The store (<root>/.rip/checkpoints/...) lies inside the workspace: a file tool, a shell command or a hard link
+   can change or remove a stored copy between create and rewind.  `store` lists the copies that differ NOW from
+   what create wrote: (recorded name, Some other bytes | None = the copy is gone); every other copy is intact.
+   checkpoint.json records sha256(bytes) per file; rewind compares it with the copy it reads (as repaired;
+   `verify = false` is the behaviour before the repair: the recorded hash was never looked at).  The hash is
+   idealised as collision free: equal hash = equal bytes. *)
+Definition store := list (str * option bytes).
+Fixpoint stored (st : store) (rel : str) (orig : bytes) : option bytes :=
+  match st with
+  | [] => Some orig
+  | (r, v) :: t => if str_eqb r rel then v else stored t rel orig
+  end.
+
+(* one step of the restore loop: `fs::read(&source_path)?`, the hash comparison, then as apply_one *)
+Definition apply_one_st (verify : bool) (st : store) (f : fs) (e : entry) : fs * option N :=
+  match snd e with
+  | Some b =>
+    match stored st (fst e) b with
+    | None => (f, Some ENOENT)
+    | Some b' => if verify && negb (lN_eqb b' b) then (f, Some EINVALDATA) else apply_one f (fst e, Some b')
+    end
+  | None => apply_one f e
+  end.
+Fixpoint apply_all_st (verify : bool) (st : store) (f : fs) (ck : list entry) : fs * option N :=
+  match ck with
+  | [] => (f, None)
+  | e :: r =>
+    let '(f1, er) := apply_one_st verify st f e in
+    match er with Some x => (f1, Some x) | None => apply_all_st verify st f1 r end
+  end.
+Definition rewind_st (verify : bool) (st : store) (f : fs) (ck : list entry) : fs * option N :=
+  match map_res (save_one f) (map fst ck) with
+  | Err e => (f, Some e)
+  | Ok snap =>
+    let '(f1, er) := apply_all_st verify st f ck in
+    match er with
+    | None => (f1, None)
+    | Some x => (undo_all f1 (btree snap), Some x)
+    end
+  end.
+
+(* tie T1 (tools/gen/autocover.py): inside rewind's restore loop, in source order: 1 `fs::read(&source_path)?`,
+   2 the comparison of hash_bytes(&bytes) with the recorded sha256 (mismatch returns an error), 3 create_dir_all of the
+   target's parent, 4 `fs::write(&target_path, &bytes)` *)
+Definition expected_restore_order : list N := [1; 2; 3; 4].
+Definition store_wf (order : list N) : bool := list_eqb N.eqb order expected_restore_order.
+
 (* ---------- correspondence (harness/src/bin/c14.rs) ---------- *)
 Inductive op :=
 | OCreate (raws : list str) (code : N) (recorded : list (str * bool))   (* observed result *)
 | ORewind (idx : N) (code : N)                                           (* idx-th successful create *)
 | OWrite (raw : str) (mode : N) (data : bytes) (code : N)                (* the write tool: 0 = exit code 0 *)
+| OTamper (idx : N) (rel : str) (now : option bytes)                     (* a stored copy of the idx-th checkpoint was changed / removed *)
 | OEdit.                                                                 (* the harness / apply_patch changed the workspace *)
 
 Record case := {
@@ -244,7 +293,14 @@ Definition tmp_fresh (f : fs) (steps : list N) (raw ext : str) : bool :=
   | _, _ => true
   end.
 
-Fixpoint run_ops (root : str) (f : fs) (cks : list (list entry)) (ops : list (op * option fs)) : bool :=
+Fixpoint tamper_nth (cks : list (list entry * store)) (i : nat) (rel : str) (v : option bytes) : list (list entry * store) :=
+  match cks, i with
+  | [], _ => []
+  | (ck, st) :: r, O => (ck, (rel, v) :: st) :: r
+  | c :: r, S j => c :: tamper_nth r j rel v
+  end.
+
+Fixpoint run_ops (root : str) (f : fs) (cks : list (list entry * store)) (ops : list (op * option fs)) : bool :=
   match ops with
   | [] => true
   | (o, obs) :: r =>
@@ -253,14 +309,14 @@ Fixpoint run_ops (root : str) (f : fs) (cks : list (list entry)) (ops : list (op
     | OCreate raws code recorded =>
       match create f root raws with
       | Ok ck => (code =? 0) && list_eqb flag_eqb (entry_flags ck) recorded && same_listing f after
-                 && run_ops root after (cks ++ [ck]) r
+                 && run_ops root after (cks ++ [(ck, [])]) r
       | Err e => (code =? e) && same_listing f after && run_ops root after cks r
       end
     | ORewind idx code =>
       match nth_error cks (N.to_nat idx) with
       | None => false
-      | Some ck =>
-        let '(f1, er) := rewind f ck in
+      | Some (ck, st) =>
+        let '(f1, er) := rewind_st true st f ck in
         (code =? match er with None => 0 | Some _ => 1 end) && same_listing f1 after && run_ops root after cks r
       end
     | OWrite raw mode data code =>
@@ -268,6 +324,7 @@ Fixpoint run_ops (root : str) (f : fs) (cks : list (list entry)) (ops : list (op
       tmp_fresh f expected_tool_steps raw corr_ext
       && (code =? match er with None => 0 | Some _ => 1 end) && same_listing f1 after && sane_b after
       && run_ops root after cks r
+    | OTamper idx rel now => run_ops root after (tamper_nth cks (N.to_nat idx) rel now) r
     | OEdit => run_ops root after cks r
     end
   end.
@@ -277,7 +334,7 @@ Definition check_case (c : case) : bool := sane_b (c_init c) && run_ops (c_root 
 (* diagnosis shown on a disagreement: [number of the first operation (from 1) the model does not reproduce
    (0 = the initial workspace is not sane); what failed there: 1 result code, 2 recorded entries, 3 listing,
    4 unknown checkpoint index, 5 the temporary name is taken, 6 observed workspace not sane] *)
-Fixpoint diag_ops (root : str) (f : fs) (cks : list (list entry)) (ops : list (op * option fs)) (i : N) : list N :=
+Fixpoint diag_ops (root : str) (f : fs) (cks : list (list entry * store)) (ops : list (op * option fs)) (i : N) : list N :=
   match ops with
   | [] => []
   | (o, obs) :: r =>
@@ -286,14 +343,14 @@ Fixpoint diag_ops (root : str) (f : fs) (cks : list (list entry)) (ops : list (o
     | OCreate raws code recorded =>
       match create f root raws with
       | Ok ck => if negb (code =? 0) then [i; 1] else if negb (list_eqb flag_eqb (entry_flags ck) recorded) then [i; 2]
-                 else if negb (same_listing f after) then [i; 3] else diag_ops root after (cks ++ [ck]) r (i + 1)
+                 else if negb (same_listing f after) then [i; 3] else diag_ops root after (cks ++ [(ck, [])]) r (i + 1)
       | Err e => if negb (code =? e) then [i; 1; e] else if negb (same_listing f after) then [i; 3] else diag_ops root after cks r (i + 1)
       end
     | ORewind idx code =>
       match nth_error cks (N.to_nat idx) with
       | None => [i; 4]
-      | Some ck =>
-        let '(f1, er) := rewind f ck in
+      | Some (ck, st) =>
+        let '(f1, er) := rewind_st true st f ck in
         if negb (code =? match er with None => 0 | Some _ => 1 end) then [i; 1; match er with None => 0 | Some e => e end]
         else if negb (same_listing f1 after) then [i; 3] else diag_ops root after cks r (i + 1)
       end
@@ -303,8 +360,34 @@ Fixpoint diag_ops (root : str) (f : fs) (cks : list (list entry)) (ops : list (o
       else if negb (code =? match er with None => 0 | Some _ => 1 end) then [i; 1; match er with None => 0 | Some e => e end]
       else if negb (same_listing f1 after) then [i; 3] else if negb (sane_b after) then [i; 6]
       else diag_ops root after cks r (i + 1)
+    | OTamper idx rel now => diag_ops root after (tamper_nth cks (N.to_nat idx) rel now) r (i + 1)
     | OEdit => diag_ops root after cks r (i + 1)
     end
   end.
 Definition model_obs (c : case) : list N :=
   if sane_b (c_init c) then diag_ops (c_root c) (c_init c) [] (c_ops c) 1 else [0].
+
+(* ---------- a whole session: several checkpoints, arbitrary edits, rewinds in any order (c14_multi) ---------- *)
+Inductive hop :=
+| HCreate (raws : list str)     (* a checkpoint of these paths (manual or automatic); refused requests leave no checkpoint *)
+| HRewind (i : nat)             (* rewind to the i-th checkpoint taken so far (successful or failing); unknown i: nothing *)
+| HEdit (g : fs).               (* anything else that happens to the workspace: it becomes g *)
+(* the workspace and, per checkpoint taken, its entries and the workspace it was taken from *)
+Fixpoint run_hist (root : str) (f : fs) (cks : list (list entry * fs)) (h : list hop) : fs * list (list entry * fs) :=
+  match h with
+  | [] => (f, cks)
+  | HCreate raws :: r =>
+    match create f root raws with
+    | Ok ck => run_hist root f (cks ++ [(ck, f)]) r
+    | Err _ => run_hist root f cks r
+    end
+  | HRewind i :: r =>
+    match nth_error cks i with
+    | Some (ck, _) => run_hist root (fst (rewind f ck)) cks r
+    | None => run_hist root f cks r
+    end
+  | HEdit g :: r => run_hist root g cks r
+  end.
+Definition hist_sane (h : list hop) : bool :=
+  forallb (fun o => match o with HEdit g => sane_b g | _ => true end) h.
+
